@@ -41,6 +41,17 @@ Theorem C04_failed_event_changes_nothing :
 Proof. exact failed_event_changes_nothing. Qed.
 Print Assumptions C04_failed_event_changes_nothing.
 
+(** In particular, without any forged signature: a validly signed prune-flagged operation that is
+    not yet stored and lies at or below the latest stored entry of its log (a fork of the log, or
+    an older prune point arriving after a newer one) is rejected and deletes nothing. *)
+Theorem C04_outdated_prune_point_changes_nothing :
+  forall (s : store) (o : op) (p : row),
+    o_valid o = true -> o_prune o = true -> has_op s (o_id o) = false ->
+    latest s (o_author o) (o_log o) = Some p -> o_seq o <= r_seq p ->
+    fst (deliver s o) = s /\ res_ok (snd (deliver s o)) = false.
+Proof. exact outdated_prune_point_changes_nothing. Qed.
+Print Assumptions C04_outdated_prune_point_changes_nothing.
+
 Theorem C04_no_prune_flag_no_deletion :
   forall (s : store) (o : op) (r : row), o_prune o = false -> In r s -> In r (fst (deliver s o)).
 Proof. exact no_prune_flag_no_deletion. Qed.
@@ -59,6 +70,22 @@ Theorem C04_import_of_invalid_changes_nothing :
   forall (me : N) (s : store) (o : op), o_valid o = false -> node_step me s (NImport o) = (s, false).
 Proof. exact import_of_invalid_changes_nothing. Qed.
 Print Assumptions C04_import_of_invalid_changes_nothing.
+
+(** Whatever the reason of the failure (signature, encoding, payload, log integrity): an import
+    that is reported as failed left the store as it was. *)
+Theorem C04_failed_import_changes_nothing :
+  forall (me : N) (s : store) (o : op),
+    snd (node_step me s (NImport o)) = false -> fst (node_step me s (NImport o)) = s.
+Proof. exact failed_import_changes_nothing. Qed.
+Print Assumptions C04_failed_import_changes_nothing.
+
+Theorem C04_import_of_outdated_prune_point_changes_nothing :
+  forall (me : N) (s : store) (o : op) (p : row),
+    o_valid o = true -> o_prune o = true -> has_op s (o_id o) = false ->
+    latest s (o_author o) (o_log o) = Some p -> o_seq o <= r_seq p ->
+    node_step me s (NImport o) = (s, false).
+Proof. exact import_of_outdated_prune_point_changes_nothing. Qed.
+Print Assumptions C04_import_of_outdated_prune_point_changes_nothing.
 
 (** Publish / prune by the node itself: only the node's own log of that topic, and only with
     the prune flag. *)
@@ -88,3 +115,13 @@ Theorem C04_unrepaired_pipeline_refuted :
   fst (deliver_asis_pipeline (run c04_victim_log) c04_forged) = [].
 Proof. exact C04_asis_refuted. Qed.
 Print Assumptions C04_unrepaired_pipeline_refuted.
+
+(** Second regression witness (seeded change C04-1): a pipeline that drops the prune request only
+    for operations that could not be authenticated lets a validly signed but rejected prune point
+    (fork at seq 3 of a six-entry log) delete the entries 0, 1, 2. *)
+Theorem C04_prune_unless_invalid_pipeline_refuted :
+  snd (deliver_prune_unless_invalid (run c04_six_log) c04_outdated_prune) = Rejected ESeqNonIncremental /\
+  map r_seq (run c04_six_log) = [0; 1; 2; 3; 4; 5] /\
+  map r_seq (fst (deliver_prune_unless_invalid (run c04_six_log) c04_outdated_prune)) = [3; 4; 5].
+Proof. exact C04_prune_unless_invalid_refuted. Qed.
+Print Assumptions C04_prune_unless_invalid_pipeline_refuted.
